@@ -16,29 +16,46 @@ LEVEL = "model_checking"
 T = 1_600_000_000_500
 
 
+MODES = {"healthy": None, "coordinator-down": ["down", 0], "other-broker-down": ["down", 1], "blackhole": ["blackhole"],
+         "failover-keep": ["coord-move", 0], "failover-lose": ["coord-move", 1]}
+
+
 def scenarios(ctx):
+    """Cluster condition at the moment of stop() is a scenario parameter (in force from a fixed instant on); stop() itself is
+    placed by the explorer (budget k) at every choice point, quiescent or mid-cascade (p-points)."""
     quick = ctx.quick
     out = []
-    Q = [{"k": 1}, {"k": 1, "f": 1}]
-    B = Q if quick else [{"k": 1, "f": 1}, {"k": 1, "r": 1}, {"k": 1, "p": 1}]
-    tail = dict(h_conv=0.5, stable=0.1, stop_bound=12.0, explore_until=2.2, kill=False, coord_move=True, stop_alt=True,
-                cluster_modes=True, probe_after_stop=True, checks=["c19"])
-    e = gc.errs()
-    out.append(("group-two", scen_group.make, gc.two_members(errs=e, **tail), B))
-    out.append(("group-two-app", scen_group.make, gc.two_members(errs=e, baseline="app", **tail), Q))
-    out.append(("group-single", scen_group.make, gc.two_members(errs=e, members=[dict(topics=["t"], assignors=["range"])], **tail), B))
-    out.append(("group-during-start", scen_group.make, gc.two_members(errs=e, stop_during_start=True, **tail), Q))
-    out.append(("groupless", scen_group.make, gc.two_members(errs={}, fault_apis=["Fetch", "ListOffsets", "Metadata"],
-                                                            members=[dict(group=False, assign=[("t", 0), ("t", 1)])], **tail), B))
-    out.append(("group-manual-assign", scen_group.make, gc.two_members(errs=e, members=[dict(assign=[("t", 0), ("t", 1)])], **tail), Q))
+    K = [{"k": 1}]
+    KT = [{"k": 1, "r": 1}, {"k": 1, "f": 1}]
+    tail = dict(h_conv=0.5, stable=0.1, stop_bound=30.0, explore_until=2.2, kill=False, coord_move=False, stop_alt=True,
+                probe_after_stop=True, checks=["c19"], errs={}, faults=["drop-before", "drop-after", "lose"])
+    for mname, mode in MODES.items():
+        extra = dict(tail)
+        if mode is not None:
+            extra["mode_at"] = [1.4, mode]
+        out.append((f"group-two-{mname}", scen_group.make, gc.two_members(**extra), K))
+        out.append((f"group-single-{mname}", scen_group.make, gc.two_members(members=[dict(topics=["t"], assignors=["range"])], **extra), K))
+        if mname in ("healthy", "coordinator-down", "other-broker-down", "blackhole"):
+            out.append((f"groupless-{mname}", scen_group.make, gc.two_members(members=[dict(group=False, assign=[("t", 0), ("t", 1)])],
+                                                                            fault_apis=["Fetch", "ListOffsets", "Metadata"], **extra), K))
+        if not quick:
+            out.append((f"group-two-app-{mname}", scen_group.make, gc.two_members(baseline="app", **extra), K))
+    out.append(("group-during-start", scen_group.make, gc.two_members(stop_during_start=True, **tail), K))
+    out.append(("group-manual-assign", scen_group.make, gc.two_members(members=[dict(assign=[("t", 0), ("t", 1)])], **tail), K))
+    if not quick:
+        out.append(("group-two-faults", scen_group.make, gc.two_members(**dict(tail, errs=gc.errs())), KT))
     base_f = {"faults": ["drop-before", "drop-after", "lose", "err"], "errs": {"Produce": [6, 7]}, "fault_apis": ["Produce", "Metadata"],
-              "check_c01": False, "check_c02": False, "check_c19": True, "stop_gate": True, "cluster_modes": True}
+              "check_c01": False, "check_c02": False, "check_c19": True, "stop_gate": True}
     prog = [[(0, T), (0, T + 1)], [(0, T + 2), (1, T + 3)]]
     for mname, m in (("idem", {"idempotent": True}), ("acks1", {"acks": 1}), ("acks0", {"acks": 0})):
         for bname, b in (("single", {"batching": "single"}), ("multi", {"batching": "multi"})):
-            if quick and mname == "acks0" and bname == "multi":
-                continue
-            out.append((f"producer-{mname}-{bname}", scen_producer.make, dict(base_f, **m, **b, baseline="app", program=prog), B))
+            for cname, mode in (("healthy", None), ("leader-down", ["down", 0]), ("other-down", ["down", 1]), ("blackhole", ["blackhole"])):
+                if quick and bname == "multi" and cname != "healthy":
+                    continue
+                p = dict(base_f, **m, **b, baseline="app", program=prog)
+                if mode:
+                    p["mode_now"] = mode
+                out.append((f"producer-{mname}-{bname}-{cname}", scen_producer.make, p, K if quick else KT))
     return out
 
 
